@@ -273,12 +273,18 @@ func (f *STFS) Initialize(rootProposal string, rootPerm os.FileMode) (root strin
 			return mkdirRoot()
 		}
 
-		if err := f.readOps.GetBackend().CloseReader(); err != nil {
-			return "", err
+		// Ensure that the new root path is being used
+		root, err := f.metadata.Metadata.GetRootPath(context.Background())
+		if err == config.ErrNoRootDirectory {
+			// The tape exists but holds no entries (i.e. an empty drive file), so there is nothing to keep
+			return mkdirRoot()
 		}
 
-		// Ensure that the new root path is being used
-		return f.metadata.Metadata.GetRootPath(context.Background())
+		if cerr := f.readOps.GetBackend().CloseReader(); cerr != nil {
+			return "", cerr
+		}
+
+		return root, err
 	} else if err != nil {
 		return "", err
 	}
